@@ -276,8 +276,10 @@ def bound_parts(b):
     return keyparts(inner), incl
 
 
-def _key_out(parts):
+def _key_out(parts, bytes_key=False):
     parts = [dup(p) for p in parts]
+    if bytes_key:         # Map<&[u8], _>: the owned key is a Vec<u8> (serialised as a byte array, not as text)
+        parts = [Str(p.s, canon=[p]) if isinstance(p, Str) and p.s is not None and not p.canon else p for p in parts]
     return parts[0] if len(parts) == 1 else Agg('tuple', parts)
 
 
@@ -307,8 +309,9 @@ def _range(it, a, c, keys_only=False, raw=False):
         out.append(e)
     order = deref(a[4])
     if order.variant == 'Descending': out.reverse()
-    if keys_only: return IterV([OK(_key_out(e[0])) for e in out])
-    return IterV([OK(Agg('tuple', [_key_out(e[0]), dup(e[1])])) for e in out])
+    bk = '&[u8]' in getattr(c, 'inst', '').split('>::')[0]
+    if keys_only: return IterV([OK(_key_out(e[0], bk)) for e in out])
+    return IterV([OK(Agg('tuple', [_key_out(e[0], bk), dup(e[1])])) for e in out])
 
 
 MODELS['cw_storage_plus::Map::range'] = MODELS['cw_storage_plus::Prefix::range'] = lambda it, a, c: _range(it, a, c)
